@@ -84,6 +84,10 @@ type IterSpec struct {
 type GhostVar struct {
 	Name, Type string
 	Pkg        string
+	// Probe: an observation of the most recent call that sets it ("ghost probe").
+	// It is forgotten at every call into module or unknown code and is exempt from
+	// frame checks, so it can only be used right after the call that sets it.
+	Probe bool
 }
 
 type SpecFunc struct {
@@ -347,8 +351,8 @@ func (cs *ContractSet) LoadFile(path, pkg string, trusted bool) {
 			cs.ByName[k] = cur
 		case "ghost":
 			f := strings.Fields(rest)
-			if len(f) >= 3 && f[0] == "var" {
-				cs.Ghosts[f[1]] = &GhostVar{Name: f[1], Type: strings.Join(f[2:], " "), Pkg: pkg}
+			if len(f) >= 3 && (f[0] == "var" || f[0] == "probe") {
+				cs.Ghosts[f[1]] = &GhostVar{Name: f[1], Type: strings.Join(f[2:], " "), Pkg: pkg, Probe: f[0] == "probe"}
 			} else {
 				errf(l.line, "bad ghost decl")
 			}
